@@ -165,6 +165,12 @@ impl Koto {
         self.runtime.value_to_string(&value).map_err(From::from)
     }
 
+    /// Verification hook H1 (guarded, add-only): sizes of the runtime's internal stacks
+    #[cfg(koto_verif)]
+    pub fn verif_stack_sizes(&self) -> (usize, usize, usize, usize, usize) {
+        self.runtime.verif_stack_sizes()
+    }
+
     /// Clears the loader's cached modules
     ///
     /// This is useful when a script's dependencies may have changed and need to be recompiled.
